@@ -15,6 +15,22 @@ CHECKS = {
         note="Trusted: spec/Messages.tla as the protocol (frozen transcription of the pinned commit, cross-checked against the repository's golden vectors); TLC; the harness projection of arguments (field copies). TZ=UTC.",
         design="4/C01",
     ),
+    "C02": dict(
+        category="model_checking",
+        technique="TLC trace validation (Trace_Api: Api!ResultOK(op,args,cfg,reply,result)) of API calls answered by scripted replies generated field by field from the TLC-exported layouts",
+        text="Api!ResultOK defines, per operation, which results are acceptable for a header-correct reply: the protocol decoding of every field (sentinels first), or - for a field outside its domain - an error or the field's zero value, never another value. "
+             "TLC judges every recorded call; the harness enumerates every byte of every reply field over all 256 values, out-of-domain / zero / random variants per field, sentinel patterns, calendar patterns in every date slot and HH:mm byte pairs.",
+        note="Trusted: spec/Messages.tla + Api.tla as protocol; TLC; result projection by field copy. TZ=UTC. Documented don't-cares are listed in the evidence assumptions.",
+        design="4/C02",
+    ),
+    "C05": dict(
+        category="model_checking",
+        technique="TLC trace validation (Trace_Codec: EncodedOK / decoded = value / slack independence / dispatch table) of codec calls on all 65 message types in child processes per time zone; slack positions exported from the specification",
+        text="For generated in-domain values of every registered message type the specification checks the encoding byte for byte, that decoding (Unmarshal, UnmarshalAs) returns the value, and that it still does after bytes outside every field (positions computed by TLC) are changed; "
+             "the dispatchers are checked against Messages!TypeOfCode over all function codes, lengths and protocol ids. One child process per zone: 12 zones quick, every IANA zone thorough.",
+        note="Trusted: spec tables; TLC; reflection-based value generation/projection in the harness; existence of a civil time in a zone is taken from Go's time package.",
+        design="4/C05",
+    ),
     "C07": dict(
         category="model_checking",
         technique="TLC trace validation (Trace_Api: nothing sent <=> Api!Reject(op,args)) of API calls recorded on the scripted transport, incl. the complete 2^32 card-number space as accept intervals (thorough)",
